@@ -72,6 +72,16 @@ def modules():
     R3 = {"n": "R3", "k": "c", "i": [["o", 10], ["ret"]], "f": "f", "e": False, "cfi": {}}
     R4 = {"n": "R4", "k": "c", "i": [["o", 11], ["ret"]], "f": "f", "e": False, "cfi": {"0": [RES], "2": [EP]}}
     out["remember-restore"] = scen.spec_of([R1, R2, R3, R4])
+    # directives at every instruction boundary of one block, incl. a register rule and a state save
+    DN = {"n": "DN", "k": "c", "i": [["push"], ["o", 12], ["o", 13], ["pop"], ["ret"]], "f": "f", "e": True,
+          "cfi": {"0": [SP, DEF], "1": [OFF16, RBX], "2": [[".cfi_offset", [6, -24], None]], "3": [REM], "4": [OFF8, [".cfi_restore", [3], None]], "5": [RES, EP]}}
+    DN2 = {"n": "DN2", "k": "c", "i": [["o", 14], ["ret"]], "f": "g", "e": True, "cfi": {"0": [SP, DEF], "1": [[".cfi_undefined", [16], None]], "2": [EP]}}
+    out["dense"] = scen.spec_of([DN, DN2])
+    # three short procedures back to back: endproc at the end offset of one block, startproc at offset 0 of the next
+    T1 = {"n": "T1", "k": "c", "i": [["ret"]], "f": "f", "e": True, "cfi": {"0": [SP, DEF], "1": [EP]}}
+    T2 = {"n": "T2", "k": "c", "i": [["o", 15], ["ret"]], "f": "g", "e": True, "cfi": {"0": [SP, DEF], "2": [EP]}}
+    T3 = {"n": "T3", "k": "c", "i": [["ret"]], "f": "h", "e": True, "cfi": {"0": [SP, DEF, OFF16], "1": [EP]}}
+    out["back-to-back"] = scen.spec_of([T1, T2, T3])
     return out
 
 
@@ -243,9 +253,90 @@ def _procs_with_survivors(E, inp, st_in):
     return len(procs)
 
 
+# ------------------------------------------------------------------ inserted functions carrying their own CFI frames
+# body = list of items: ("i", asm text, size in bytes) | ("d", directive, [ints])
+FUNC_BODIES = {
+    "cie-prefix": [("d", ".cfi_startproc", []), ("d", ".cfi_def_cfa", [7, 8]), ("d", ".cfi_offset", [16, -8]), ("i", "pushq %rbx", 1),
+                   ("d", ".cfi_adjust_cfa_offset", [8]), ("i", "movb $1, %bl", 2), ("i", "popq %rbx", 1), ("d", ".cfi_adjust_cfa_offset", [-8]),
+                   ("i", "ret", 1), ("d", ".cfi_endproc", [])],
+    "late-directives": [("d", ".cfi_startproc", []), ("i", "pushq %rbx", 1), ("d", ".cfi_def_cfa", [7, 16]), ("i", "popq %rbx", 1),
+                        ("d", ".cfi_def_cfa", [7, 8]), ("i", "ret", 1), ("d", ".cfi_endproc", [])],
+    "two-procs": [("d", ".cfi_startproc", []), ("d", ".cfi_def_cfa", [7, 8]), ("i", "ret", 1), ("d", ".cfi_endproc", []),
+                  ("d", ".cfi_startproc", []), ("d", ".cfi_def_cfa", [7, 8]), ("d", ".cfi_undefined", [16]), ("i", "movb $2, %bl", 2), ("i", "ret", 1), ("d", ".cfi_endproc", [])],
+    "no-cfi": [("i", "movb $3, %bl", 2), ("i", "ret", 1)],
+}
+
+
+def check_newfunc_cfi(name, bodies, mods):
+    """register_insert_function with explicit CFI frames (+ ordinary modifications elsewhere)."""
+    import gtirb
+    from gtirb_rewriting import Constraints, Patch, RewritingContext
+
+    from .. import cfimodel
+
+    spec = MODULES[name]
+    w = Lg.build(spec)
+    inp = Lg.flatten(spec, Lg.tokens_of(spec), set())
+    _, cnt_in, err_in = cfieval.states(inp)
+    ctx = RewritingContext(w.m, w.funcs)
+    syms = []
+    try:
+        for i, bname in enumerate(bodies):
+            text = "\n".join((it[1] if it[0] == "i" else "%s %s" % (it[1], ", ".join(str(x) for x in it[2]))) for it in FUNC_BODIES[bname]) + "\n"
+            syms.append(ctx.register_insert_function("newcfi%d" % i, Patch.from_function(lambda c, text=text: text, Constraints())))
+        Lg.register(w, ctx, mods)
+        ctx.apply()
+    except Exception as e:
+        return "raised", [C.D("newfunc-cfi-apply-raised", r_exc=type(e).__name__, msg=str(e)[:120], r_bodies="+".join(bodies))]
+    O = Lg.observe(w)
+    st_obs, cnt_obs, err_obs = cfieval.states(O)
+    diffs = []
+    roles = {"r_bodies": "+".join(bodies)}
+    if err_obs is not None:
+        diffs.append(C.D("cfi-no-longer-evaluates", where=err_obs, r_why=err_obs["why"], r_deleted=False, r_whole_block_deleted=False, r_deleted_cie_prefix=False, r_patch_cfi=True, **roles))
+    le = lib_eval(w)
+    if le is not None and err_obs is None:
+        diffs.append(C.D("cfi-library-evaluator-raises", msg=le, r_deleted_cie_prefix=False, **roles))
+    want_procs = sum(sum(1 for it in FUNC_BODIES[b] if it[0] == "d" and it[1] == ".cfi_startproc") for b in bodies)
+    for dname in (".cfi_startproc", ".cfi_endproc"):
+        if cnt_obs.get(dname, 0) != cnt_in.get(dname, 0) + want_procs:
+            diffs.append(C.D("cfi-required-directive-count", r_directive=dname, before=cnt_in.get(dname, 0), after=cnt_obs.get(dname, 0), expected=cnt_in.get(dname, 0) + want_procs, r_rel="lost" if cnt_obs.get(dname, 0) < cnt_in.get(dname, 0) + want_procs else "duplicated", r_deleted=False, r_patch_cfi=True, **roles))
+    if err_obs is None:
+        # the state at every instruction of an inserted function = its own frame evaluated from scratch
+        for sym, bname in zip(syms, bodies):
+            blk = sym.referent
+            if not isinstance(blk, gtirb.CodeBlock) or blk.module is not w.m:
+                diffs.append(C.D("newfunc-symbol-not-on-a-code-block-of-the-module", **roles))
+                continue
+            lay = {bi: p for sect in w.m.sections for bi, p in Lg.section_layout(sect)[0]}
+            base = (blk.section.name, lay[blk.byte_interval] + blk.offset)
+            mach = cfimodel.Machine("X64-ELF")
+            off = 0
+            pending = False
+            for it in FUNC_BODIES[bname]:
+                if it[0] == "d":
+                    mach.directive(it[1], list(it[2]), None)
+                    pending = True
+                else:
+                    snap = mach.snapshot()
+                    want = None if snap is None else cfieval._freeze(snap)
+                    got = st_obs.get((base[0], base[1] + off), "missing")
+                    if got != want:
+                        diffs.append(C.D("cfi-unwind-state-differs", r_src="inserted-function", at=[base[0], base[1] + off], body_offset=off, expected=str(want)[:160], observed=str(got)[:160], r_deleted=False, r_patch_cfi=True, **roles))
+                    off += it[2]
+                    mach.next_location(False)
+                    pending = False
+    return ("ok" if not diffs else "diff"), diffs
+
+
+NEWFUNC_CFI_CASES = [["cie-prefix"], ["late-directives"], ["two-procs"], ["no-cfi", "cie-prefix"], ["cie-prefix", "two-procs"]]
+
+
 def tasks(tier):
     t = []
     n = BOUNDS[tier]["set_size"]
+    for name in ("two-procs", "personality"):
+        t.append((name, "newfunc", None))
     for name, spec in MODULES.items():
         na = len(atoms_for(spec))
         # split pairs by the first atom to spread over the cores
@@ -264,6 +355,17 @@ def run_task(task):
     name, n, first = task
     res = TaskResult()
     spec = MODULES[name]
+    if n == "newfunc":
+        singles = [[]] + [[a] for a in atoms_for(spec) if a["op"] == "ins"][::5]
+        for bodies in NEWFUNC_CFI_CASES:
+            for mods in singles:
+                mods = scen.retag(mods)
+                outcome, diffs = check_newfunc_cfi(name, bodies, mods)
+                res.case((name, "newfunc", bodies, mods), nontrivial=True, outcome=outcome)
+                if diffs:
+                    res.bad({"module": name, "newfunc": bodies, "mods": mods}, diffs)
+            res.sample({"module": name, "newfunc": bodies, "mods": []}, cap=1)
+        return res
     atoms = atoms_for(spec)
     if first is None:
         gen = scen.mod_sets(spec, atoms, 1)
@@ -291,4 +393,6 @@ def run_task(task):
 
 
 def replay(case):
+    if "newfunc" in case:
+        return check_newfunc_cfi(case["module"], case["newfunc"], case["mods"])[1]
     return check(MODULES[case["module"]], case["mods"])[1]
